@@ -35,7 +35,10 @@ def recipe(c: Check):
         # the branches the property names must have been reached, otherwise the run proves nothing about them
         cnt = (c.cov.get("coq_counters") or {}).get("httpauth", {})
         need = ["NUNAUTH", "NFORWARD_PROTECTED", "NFORWARD_OPEN", "NNOTFOUND", "NSPLIT_USER", "NH2",
-                "NMUX_AUTHFAIL", "NMUX_FORWARD_PROTECTED", "NGRP_REFUSED_JOIN", "NGRP_PROTECTED_DELIVERY"]
+                "NMUX_AUTHFAIL", "NMUX_FORWARD_PROTECTED", "NGRP_REFUSED_JOIN", "NGRP_PROTECTED_DELIVERY",
+                "NHGRP_REFUSED_JOIN", "NHGRP_PROTECTED_DELIVERY"]
+        if st.get("parts_system"):
+            need += ["NSYS_SUBDOMAIN_REFUSED", "NSYS_SUBDOMAIN_FORWARDED"]
         if st.get("parts_web"):
             need += ["NWEB_UNAUTH", "NWEB_PUBLIC"]
         missing = [k for k in need if cnt.get(k, 0) <= 0]
